@@ -3,7 +3,7 @@
    implies (tamper rejection, stated for an ideal AEAD in a Section). *)
 From LibcoapV Require Import Base.Tactics Base.Bytes Base.BytesProofs Wire.OptCodec
   Wire.OptCodecProofs Wire.Pdu Wire.PduProofs Oscore.Aes128 Oscore.Ccm Oscore.CcmProofs
-  Oscore.Hkdf Oscore.Cbor Oscore.OscOption Oscore.OscOptionProofs Oscore.Protect.
+  Oscore.Hkdf Oscore.Cbor Oscore.OscOption Oscore.OscOptionProofs Oscore.Protect Oscore.Vectors.
 Local Open Scope Z_scope.
 
 (* ---- ascending lists ---- *)
@@ -325,3 +325,237 @@ Proof.
   exists o. split; [exact A|]. rewrite B. unfold osc_resp_view.
   rewrite osc_fix_observe_none by exact Hobs. rewrite osc_msg_eta. reflexivity.
 Qed.
+
+(* ---- decoded fields are short ---- *)
+Lemma osc_opt_decode_piv_len v piv kc kid :
+  osc_opt_decode v = Some (piv, kc, kid) -> len piv <= 5.
+Proof.
+  unfold osc_opt_decode. destruct v as [|f r]; [intros H; inversion H; unfold len; cbn; lia|].
+  destruct ((f <? 1) || (32 <=? f)); [discriminate|].
+  destruct (5 <? f mod 8) eqn:E5; [discriminate|].
+  destruct (len r <? f mod 8) eqn:El; [discriminate|].
+  assert (Hp : len (take (f mod 8) r) <= 5).
+  { rewrite len_take; lia. }
+  destruct (if (f / 16) mod 2 =? 1 then _ else _) as [[kc' r3]|]; [|discriminate].
+  destruct ((f / 8) mod 2 =? 1).
+  - intros H. inversion H. subst. exact Hp.
+  - destruct r3; [|discriminate]. intros H. inversion H. subst. exact Hp.
+Qed.
+
+(* ---- hypothesis-free facts about verification with the real AES-CCM ---- *)
+
+(* a request addressed to another recipient id is rejected, whatever the AEAD *)
+Theorem osc_request_other_recipient dec c s m seq o0 :
+  osc_ctx_ok c -> 0 <= seq < 1099511627776 -> osc_protect_req c m seq = Some o0 ->
+  sc_rid s <> sc_sid c -> osc_unprotect_req_gen dec s o0 = None.
+Proof.
+  intros Hc Hseq Hp Hne. unfold osc_protect_req in Hp.
+  destruct (osc_has OSC_OPT (m_opts m) || osc_has 35 (m_opts m)) eqn:E; [discriminate|].
+  apply orb_false_iff in E. destruct E as [H9 _]. inversion Hp. subst o0. clear Hp.
+  unfold osc_unprotect_req_gen. cbn [m_opts m_payload].
+  rewrite osc_find_insert by (apply osc_has_filter; exact H9).
+  pose proof (osc_piv_bytes_len seq Hseq) as Lp.
+  rewrite osc_opt_decode_encode by (try exact Hc; lia).
+  destruct (osc_piv_bytes seq) as [|p0 ps]; [reflexivity|].
+  rewrite osc_bytes_eqb_neq by congruence. reflexivity.
+Qed.
+
+(* the tag is verified: the genuine protected request with any other 8-byte tag is rejected *)
+Theorem osc_request_tag_checked c s m seq o0 ct tag tag' :
+  osc_paired c s -> osc_ctx_ok c -> osc_msg_ok m -> 0 <= seq < 1099511627776 ->
+  osc_protect_req c m seq = Some o0 ->
+  m_payload o0 = ct ++ tag -> len tag = 8 -> len tag' = 8 -> tag' <> tag ->
+  osc_unprotect_req s (mkMsg (m_type o0) (m_code o0) (m_mid o0) (m_token o0) (m_opts o0) (ct ++ tag'))
+  = None.
+Proof.
+  intros (P1 & P2 & P3 & P4 & P5 & P6) Hc (Hwf & Hasc & H9 & H35) Hseq Hp Hpl Ht Ht' Hne.
+  unfold osc_protect_req in Hp. rewrite H9, H35 in Hp. cbn [orb] in Hp. inversion Hp. subst o0. clear Hp.
+  cbn [m_opts m_payload m_type m_mid m_token m_code] in *.
+  unfold osc_unprotect_req, osc_unprotect_req_gen. cbn [m_opts m_payload m_type m_mid m_token].
+  rewrite osc_find_insert by (apply osc_has_filter; exact H9).
+  pose proof (osc_piv_bytes_len seq Hseq) as Lp.
+  rewrite osc_opt_decode_encode by (try exact Hc; lia).
+  destruct (osc_piv_bytes seq) as [|p0 ps] eqn:Epiv.
+  { unfold len in Lp. cbn [length] in Lp. lia. }
+  rewrite <- P1, osc_bytes_eqb_refl. cbn [negb].
+  unfold osc_ctx_match. rewrite P6, osc_bytes_eqb_refl. cbn [negb].
+  rewrite <- P3, <- P5.
+  rewrite (osc_ccm_wrong_tag_rejected _ _ _ _ _ _ _ Hpl Ht Ht' Hne). reflexivity.
+Qed.
+
+(* ---- tamper rejection for an ideal AEAD ---- *)
+Section IdealAead.
+  (* an AEAD decryption function, a key, and the record of what the holder(s) of that key
+     emitted under it: (nonce, aad, ciphertext) triples *)
+  Variable dec : osc_aead_dec.
+  Variable K : bytes.
+  Variable sent : bytes -> bytes -> bytes -> Prop.
+
+  (* ASSUMED, not proved for AES-CCM: ideal ciphertext integrity - under key K nothing decrypts
+     except what was emitted under K.  (For the real AES-CCM with a 64-bit tag this holds only up
+     to a forgery probability of 2^-64 per attempt; it is the idealisation of INT-CTXT.) *)
+  Hypothesis aead_ideal_integrity : forall n a c p, dec K n a c = Some p -> sent n a c.
+
+  Theorem osc_request_accept_implies_sent s o m' :
+    sc_rkey s = K -> osc_unprotect_req_gen dec s o = Some m' ->
+    exists ov piv kc,
+      osc_find_opt OSC_OPT (m_opts o) = Some ov /\
+      osc_opt_decode (snd ov) = Some (piv, kc, Some (sc_rid s)) /\
+      sent (osc_nonce (sc_rid s) piv (sc_iv s)) (osc_aad OSC_ALG (sc_rid s) piv) (m_payload o).
+  Proof.
+    intros HK H. unfold osc_unprotect_req_gen in H.
+    destruct (osc_find_opt OSC_OPT (m_opts o)) as [[n9 ov]|] eqn:Ef; [|discriminate].
+    destruct (osc_opt_decode ov) as [[[piv kc] kid]|] eqn:Ed; [|discriminate].
+    destruct kid as [k|]; [|discriminate].
+    destruct piv as [|p0 ps]; [discriminate|].
+    destruct (osc_bytes_eqb k (sc_rid s)) eqn:Ek; cbn [negb] in H; [|discriminate].
+    apply osc_bytes_eqb_eq in Ek. subst k.
+    destruct (osc_ctx_match kc (sc_idctx s)); cbn [negb] in H; [|discriminate].
+    destruct (dec (sc_rkey s) _ _ (m_payload o)) as [pt|] eqn:Edec; [|discriminate].
+    exists (n9, ov), (p0 :: ps), kc. cbn [snd]. repeat split; try assumption.
+    rewrite HK in Edec. eapply aead_ideal_integrity. exact Edec.
+  Qed.
+
+  (* nothing was ever emitted under the recipient's key (e.g. the sender used a context derived
+     from another master secret, salt or id context): every message is rejected *)
+  Corollary osc_request_unknown_key_rejected s o :
+    sc_rkey s = K -> (forall n a c, ~ sent n a c) -> osc_unprotect_req_gen dec s o = None.
+  Proof.
+    intros HK Hnone. destruct (osc_unprotect_req_gen dec s o) as [m'|] eqn:E; [|reflexivity].
+    destruct (osc_request_accept_implies_sent s o m' HK E) as (ov & piv & kc & _ & _ & Hs).
+    exfalso. exact (Hnone _ _ _ Hs).
+  Qed.
+
+  (* the key holder emitted exactly one message, the protection of [m] under sequence number
+     [seq]: whatever is accepted carries the genuine ciphertext, and its OSCORE option decodes to
+     the genuine Partial IV and kid.  So any change to the ciphertext, to the Partial IV or to the
+     kid is rejected. *)
+  Theorem osc_request_tamper_rejected c s m seq o0 o m' :
+    osc_paired c s -> sc_rkey s = K -> len (sc_sid c) <= 7 -> 0 <= seq < 1099511627776 ->
+    osc_protect_req c m seq = Some o0 ->
+    (forall n a ct, sent n a ct ->
+       n = osc_nonce (sc_sid c) (osc_piv_bytes seq) (sc_iv c) /\
+       a = osc_aad OSC_ALG (sc_sid c) (osc_piv_bytes seq) /\ ct = m_payload o0) ->
+    osc_unprotect_req_gen dec s o = Some m' ->
+    m_payload o = m_payload o0 /\
+    exists ov kc, osc_find_opt OSC_OPT (m_opts o) = Some ov /\
+                  osc_opt_decode (snd ov) = Some (osc_piv_bytes seq, kc, Some (sc_sid c)).
+  Proof.
+    intros (P1 & P2 & P3 & P4 & P5 & P6) HK Hid Hseq Hp Hsent Hacc.
+    destruct (osc_request_accept_implies_sent s o m' HK Hacc) as (ov & piv & kc & Hf & Hd & Hs).
+    destruct (Hsent _ _ _ Hs) as (Hn & Ha & Hc). split; [exact Hc|].
+    exists ov, kc. split; [exact Hf|]. rewrite <- P1 in *.
+    pose proof (osc_opt_decode_piv_len _ _ _ _ Hd) as Lp.
+    pose proof (osc_piv_bytes_len seq Hseq) as Lq.
+    apply osc_aad_inj in Ha; try (unfold OSC_ALG; lia).
+    destruct Ha as (_ & _ & Hpiv). rewrite <- Hpiv. exact Hd.
+  Qed.
+
+  (* ... and what is handed out is the genuine protected content (code, class E options,
+     payload); only the fields OSCORE does not protect (type, message id, token, outer options)
+     are taken from the received message *)
+  Theorem osc_request_accepted_content c s m seq o0 o m' pt0 code inner pl :
+    osc_paired c s -> sc_rkey s = K -> len (sc_sid c) <= 7 -> 0 <= seq < 1099511627776 ->
+    osc_protect_req c m seq = Some o0 ->
+    (forall n a ct, sent n a ct ->
+       n = osc_nonce (sc_sid c) (osc_piv_bytes seq) (sc_iv c) /\
+       a = osc_aad OSC_ALG (sc_sid c) (osc_piv_bytes seq) /\ ct = m_payload o0) ->
+    dec K (osc_nonce (sc_sid c) (osc_piv_bytes seq) (sc_iv c))
+          (osc_aad OSC_ALG (sc_sid c) (osc_piv_bytes seq)) (m_payload o0) = Some pt0 ->
+    osc_parse_plaintext pt0 = Some (code, inner, pl) ->
+    osc_unprotect_req_gen dec s o = Some m' ->
+    m' = mkMsg (m_type o) code (m_mid o) (m_token o) (osc_merge (osc_kept_outer (m_opts o)) inner) pl.
+  Proof.
+    intros Hpair HK Hid Hseq Hp Hsent Hdec Hparse Hacc.
+    destruct (osc_request_tamper_rejected c s m seq o0 o m' Hpair HK Hid Hseq Hp Hsent Hacc)
+      as (Hpl & [n9 ov] & kc & Hf & Hd).
+    destruct Hpair as (P1 & P2 & P3 & P4 & P5 & P6).
+    unfold osc_unprotect_req_gen in Hacc. rewrite Hf in Hacc. cbn [snd] in Hd. rewrite Hd in Hacc.
+    destruct (osc_piv_bytes seq) as [|p0 ps] eqn:Epiv; [discriminate|].
+    destruct (negb (osc_bytes_eqb (sc_sid c) (sc_rid s))); [discriminate|].
+    destruct (negb (osc_ctx_match kc (sc_idctx s))); [discriminate|].
+    rewrite HK, <- P5, Hpl, Hdec, Hparse in Hacc. inversion Hacc. reflexivity.
+  Qed.
+
+  (* responses: acceptance implies that the (nonce, aad, ciphertext) computed from the received
+     message was emitted under the key *)
+  Theorem osc_response_accept_implies_sent c tok req_piv o m' :
+    sc_rkey c = K -> osc_unprotect_resp_gen dec c tok req_piv o = Some m' ->
+    m_token o = tok /\
+    exists ov piv kc kid,
+      osc_find_opt OSC_OPT (m_opts o) = Some ov /\
+      osc_opt_decode (snd ov) = Some (piv, kc, kid) /\
+      sent (match piv with
+            | [] => osc_nonce (sc_sid c) req_piv (sc_iv c)
+            | _ => osc_nonce (sc_rid c) piv (sc_iv c)
+            end)
+           (osc_aad OSC_ALG (sc_sid c) req_piv) (m_payload o).
+  Proof.
+    intros HK H. unfold osc_unprotect_resp_gen in H.
+    destruct (osc_bytes_eqb (m_token o) tok) eqn:Et; cbn [negb] in H; [|discriminate].
+    apply osc_bytes_eqb_eq in Et. split; [exact Et|].
+    destruct (osc_find_opt OSC_OPT (m_opts o)) as [[n9 ov]|] eqn:Ef; [|discriminate].
+    destruct (osc_opt_decode ov) as [[[piv kc] kid]|] eqn:Ed; [|discriminate].
+    destruct (negb _); [discriminate|].
+    destruct (dec (sc_rkey c) _ _ (m_payload o)) as [pt|] eqn:Edec; [|discriminate].
+    exists (n9, ov), piv, kc, kid. cbn [snd]. repeat split; try assumption.
+    rewrite HK in Edec. eapply aead_ideal_integrity. exact Edec.
+  Qed.
+
+  (* single emission: an accepted response carries the genuine ciphertext, the token of the
+     request, and an OSCORE option that yields the genuine nonce *)
+  Theorem osc_response_tamper_rejected c tok req_piv n0 a0 c0 o m' :
+    sc_rkey c = K ->
+    (forall n a ct, sent n a ct -> n = n0 /\ a = a0 /\ ct = c0) ->
+    osc_unprotect_resp_gen dec c tok req_piv o = Some m' ->
+    m_token o = tok /\ m_payload o = c0 /\
+    exists ov piv kc kid,
+      osc_find_opt OSC_OPT (m_opts o) = Some ov /\
+      osc_opt_decode (snd ov) = Some (piv, kc, kid) /\
+      n0 = match piv with
+           | [] => osc_nonce (sc_sid c) req_piv (sc_iv c)
+           | _ => osc_nonce (sc_rid c) piv (sc_iv c)
+           end.
+  Proof.
+    intros HK Hsent Hacc.
+    destruct (osc_response_accept_implies_sent c tok req_piv o m' HK Hacc)
+      as (Ht & ov & piv & kc & kid & Hf & Hd & Hs).
+    destruct (Hsent _ _ _ Hs) as (Hn & Ha & Hc).
+    split; [exact Ht|]. split; [exact Hc|].
+    exists ov, piv, kc, kid. repeat split; try assumption. symmetry. exact Hn.
+  Qed.
+End IdealAead.
+
+(* non-vacuity of the Section hypothesis: the ideal AEAD functionality "decrypt only what was
+   emitted" (a table with one entry) satisfies it *)
+Definition osc_ideal_dec (k0 n0 a0 c0 p0 : bytes) : osc_aead_dec :=
+  fun k n a c =>
+    if osc_bytes_eqb k k0 && osc_bytes_eqb n n0 && osc_bytes_eqb a a0 && osc_bytes_eqb c c0
+    then Some p0 else None.
+
+Lemma osc_ideal_dec_integrity k0 n0 a0 c0 p0 :
+  forall n a c p, osc_ideal_dec k0 n0 a0 c0 p0 k0 n a c = Some p -> n = n0 /\ a = a0 /\ c = c0.
+Proof.
+  intros n a c p H. unfold osc_ideal_dec in H.
+  destruct (osc_bytes_eqb k0 k0 && osc_bytes_eqb n n0 && osc_bytes_eqb a a0 && osc_bytes_eqb c c0) eqn:E;
+    [|discriminate].
+  repeat (apply andb_true_iff in E; destruct E as [E ?]).
+  repeat split; apply osc_bytes_eqb_eq; assumption.
+Qed.
+
+(* ... and with it the genuine RFC 8613 C.4 request is accepted while everything else emitted
+   under the key is not: the hypotheses of the Section are satisfiable together with acceptance *)
+Example osc_ideal_dec_accepts_genuine :
+  let m := osc_c_request 23839 [0; 0; 57; 116] in
+  let piv := osc_piv_bytes 20 in
+  let n0 := osc_nonce (sc_sid osc_c1_client) piv (sc_iv osc_c1_client) in
+  let a0 := osc_aad OSC_ALG (sc_sid osc_c1_client) piv in
+  match osc_protect_req osc_c1_client m 20 with
+  | Some o0 =>
+      osc_unprotect_req_gen
+        (osc_ideal_dec (sc_rkey osc_c1_server) n0 a0 (m_payload o0)
+           (osc_plaintext (m_code m) (osc_inner_opts true (m_opts m)) (m_payload m)))
+        osc_c1_server o0 = Some m
+  | None => False
+  end.
+Proof. vm_compute. reflexivity. Qed.
